@@ -49,12 +49,12 @@ Fixpoint l_run2 (cond : cfg -> Z -> lrec -> addr -> N -> bool)
               let '(ok, cl') := l_step2 cond cl w h o in ok && l_run2 cond cl' w' t
   end.
 
-(* admissible hops: cookie-following clients, no faults, crashes, GetAndDelete or
+(* admissible hops: cookie-following clients (any scripts), no faults, crashes or
    cache loss, the clock does not run backwards, configuration changes keep the
    codec and the peer/agent rules *)
 Definition live_hop (n : Z) (b j : bool) (h : hop) : bool :=
   match h with
-  | HReq _ => c01_hop false h
+  | HReq _ => c01_hop h
   | HWait d => (0 <=? d)%Z
   | HPurge _ pl | HLogoutUser _ _ pl | HRefreshUser _ _ pl => nil_plan pl
   | HDropCache | HRestart => false
@@ -62,14 +62,14 @@ Definition live_hop (n : Z) (b j : bool) (h : hop) : bool :=
   end.
 
 Lemma live_hop_parts n b j h : live_hop n b j h = true ->
-  LiveHist4.calm j h /\ wf_hop j h = true /\ c01_hop false h = true /\
+  LiveHist4.calm j h /\ wf_hop j h = true /\ c01_hop h = true /\
   (forall c2, h = HSetCfg c2 -> c_acceptip c2 = n /\ c_acceptua c2 = b).
 Proof.
   destruct h as [r|d|tbl pl| | |u tbl pl|u tbl pl|c']; cbn [live_hop LiveHist4.calm]; intro H;
     try discriminate H.
   - pose proof (c01_wf_hop j (HReq r) H eq_refl) as Hw.
     split; [|split; [exact Hw|split; [exact H|intros cx Ex; discriminate Ex]]].
-    cbn [wf_hop] in Hw. destruct (wf_req_parts r Hw) as (A & B & _). split; assumption.
+    cbn [wf_hop] in Hw. destruct (wf_req_parts r Hw) as (A & B). split; assumption.
   - split; [apply Z.leb_le; exact H|]. split; [reflexivity|]. split; [reflexivity|]. intros cx Ex; discriminate Ex.
   - destruct pl; [|discriminate H]. split; [reflexivity|]. split; [reflexivity|]. split; [reflexivity|].
     intros cx Ex; discriminate Ex.
